@@ -42,4 +42,51 @@ theorem runM_bind_error {α β} {W : World} {x : M α} {f : α → M β} {e : Er
   | error e' => simp [bind, Except.bind]
   | ok a => simp [bind, Except.bind]
 
+/-! ### "all errors of a computation satisfy S" -/
+
+/-- all errors of `x` satisfy `S` -/
+def ErrIn {α} (S : Err → Prop) (x : Except Err α) : Prop := ∀ e, x = .error e → S e
+
+theorem ErrIn_bind {α β} {S : Err → Prop} {x : Except Err α} {f : α → Except Err β}
+    (hx : ErrIn S x) (hf : ∀ a, x = .ok a → ErrIn S (f a)) : ErrIn S (x >>= f) := by
+  intro e he
+  cases hx' : x with
+  | error e' => rw [hx'] at he; exact hx e (by rw [hx']; simpa [bind, Except.bind] using he)
+  | ok a => rw [hx'] at he; exact hf a hx' e (by simpa [bind, Except.bind] using he)
+
+theorem ErrIn_pure {α} {S : Err → Prop} (a : α) : ErrIn S (pure a : Except Err α) := by
+  intro e he; cases he
+
+theorem ErrIn_ok {α} {S : Err → Prop} (a : α) : ErrIn S (.ok a : Except Err α) := by
+  intro e he; cases he
+
+theorem ErrIn_rejectE {S : Err → Prop} {c : Bool} {e : Err} (h : S e) : ErrIn S (rejectE c e) := by
+  intro e' he; unfold rejectE at he; cases c <;> simp at he; rw [← he]; exact h
+
+theorem ErrIn_someOr {α} {S : Err → Prop} {o : Option α} {e : Err} (h : S e) : ErrIn S (someOr o e) := by
+  intro e' he; unfold someOr at he; cases o <;> simp at he; rw [← he]; exact h
+
+/-- the same for computations that consult the libraries -/
+def MErrIn {α} (S : Err → Prop) (W : World) (x : M α) : Prop := ∀ e, runM W x = .error e → S e
+
+theorem MErrIn_bind {α β} {S : Err → Prop} {W : World} {x : M α} {f : α → M β}
+    (hx : MErrIn S W x) (hf : ∀ a, runM W x = .ok a → MErrIn S W (f a)) : MErrIn S W (x >>= f) := by
+  intro e he
+  rw [runM_bind_error] at he
+  rcases he with he | ⟨a, ha, he⟩
+  · exact hx e he
+  · exact hf a ha e he
+
+theorem MErrIn_reject {S : Err → Prop} {W : World} {c : Bool} {e : Err} (h : S e) : MErrIn S W (reject c e) := by
+  intro e' he; unfold reject at he; cases c <;> simp at he; rw [← he]; exact h
+
+theorem MErrIn_liftE {α} {S : Err → Prop} {W : World} {x : Except Err α} (h : ErrIn S x) : MErrIn S W (liftE x) := by
+  intro e he; rw [runM_liftE] at he; exact h e he
+
+theorem MErrIn_pure {α} {S : Err → Prop} {W : World} (a : α) : MErrIn S W (pure a : M α) := by
+  intro e he; simp at he
+
+theorem MErrIn_ask {S : Err → Prop} {W : World} (q : Query) : MErrIn S W (askM q) := by
+  intro e he; simp at he
+
 end Webauthn
